@@ -2,6 +2,7 @@ import GoSQLXModel.Model.LexGen
 import GoSQLXModel.Proofs.LexEOF
 import GoSQLXModel.Proofs.LexSpell2
 import GoSQLXModel.Proofs.LexSpell3
+import GoSQLXModel.Proofs.LexLimit
 /-!
 # C05 — Reported source positions point at the right characters
 
@@ -106,6 +107,22 @@ theorem unterminated_literal_located_at_its_quote (cls : CharClass) (hA : AsciiO
     tokenize cls genLexTables (sepBytes lead ++ (flat2 items ++ 39 :: body)) =
       .err ⟨"E1002", .at (sepBytes lead ++ flat2 items).length⟩ :=
   unterminated_literal_located cls genLexTables hA h39 lead items body hlead hb hok hsize hcount
+
+/-- the token-limit error is located at the first element beyond the limit: after any reference text of exactly
+    `maxTokens` lexemes (comments, blank lines and multi-line literals included) the error's offset is the offset of what
+    follows -/
+theorem token_limit_error_located_at_the_excess (cls : CharClass) (hA : AsciiOK cls) (lead : List Piece) (items : List Item2)
+    (tail : Bytes) (htail : stopB tail = true) (hne : tail ≠ []) (hlead : lead.all Piece.ok = true)
+    (hok : seqOKT cls genLexTables tail items = true)
+    (hsize : (sepBytes lead ++ (flat2 items ++ tail)).length ≤ genLexTables.maxInput)
+    (hcount : items.length = genLexTables.maxTokens) :
+    tokenize cls genLexTables (sepBytes lead ++ (flat2 items ++ tail)) =
+      .err ⟨"E1007", .at (sepBytes lead ++ flat2 items).length⟩ := by
+  have h := token_limit_refuses cls genLexTables hA lead items tail htail hne hlead hok hsize hcount
+  rw [h]
+  have : (sepBytes lead ++ (flat2 items ++ tail)).length - tail.length = (sepBytes lead ++ flat2 items).length := by
+    simp only [List.length_append]; omega
+  rw [this]
 
 /-- non-vacuity: a leading comment, a blank line, a literal that spans two lines, then `x`: every token is located at
     its own first character (line 5, column 2 for `x`) -/
